@@ -10,6 +10,7 @@ import (
 	"os"
 	"os/exec"
 	"path/filepath"
+	"reflect"
 	"regexp"
 	"runtime/debug"
 	"sort"
@@ -222,6 +223,11 @@ func ExtraDiags(r, baseline *Result) []string {
 	var extra []string
 	for _, d := range r.Diags {
 		if !seen[d] {
+			if IsWarning(d) || strings.HasPrefix(d, "Warning:") {
+				// the properties speak of statements assembled "without reporting an error" / of runs that print "no
+				// error-level diagnostic": a warning does not take a case out of their domain
+				continue
+			}
 			extra = append(extra, d)
 		}
 	}
@@ -446,8 +452,16 @@ func AssembleNoExit(src string) (res NoExitResult) {
 			}
 			return res
 		}
-		for _, id := range ctx.TooFarBranches {
-			near[id] = true
+		// (read through reflection: the replica should keep building if the field becomes a set)
+		switch tf := reflect.ValueOf(ctx.TooFarBranches); tf.Kind() {
+		case reflect.Slice:
+			for i := 0; i < tf.Len(); i++ {
+				near[int(tf.Index(i).Int())] = true
+			}
+		case reflect.Map:
+			for _, k := range tf.MapKeys() {
+				near[int(k.Int())] = true
+			}
 		}
 		if iter > 200000 {
 			res.Err = "branch widening did not converge"
